@@ -12,5 +12,5 @@ CONSTANTS
   MaxPool = 3
   MaxOps = 0
 VIEW ViewNoHist
-INVARIANT TypeOK
-PROPERTIES CandidateValid DropsJustified
+INVARIANTS TypeOK NothingToPropose
+PROPERTIES CandidateValid DropsJustified DropOldExact
